@@ -26,6 +26,7 @@ type c15File struct {
 	Header  string // lines before the package clause
 	HasInit bool
 	Clause  string // package clause name
+	Stmt    bool   // the file has a package-level statement with block-scoped locals (unit kind "stmt")
 }
 
 type c15Pkg struct {
@@ -129,6 +130,11 @@ func (t *c15Tree) files() map[string]string {
 				first = false
 			}
 			fmt.Fprintf(&b, "func m%d() int {\n\tprintln(\"RUN\", %q, %q, \"var\"%s)\n\treturn 1\n}\n\nvar W%d = m%d()\n\n", fi, p.Path, f.Name, args, fi, fi)
+			if f.Stmt {
+				// a package-level statement with block-scoped locals (the scripting extension): it runs with the
+				// initialisers, in source order
+				fmt.Fprintf(&b, "for i%d := 0; i%d < 1; i%d++ {\n\tif v := i%d + 1; v > 0 {\n\t\tprintln(\"RUN\", %q, %q, \"stmt\"%s)\n\t}\n}\n\n", fi, fi, fi, fi, p.Path, f.Name, args)
+			}
 			if f.HasInit {
 				fmt.Fprintf(&b, "func init() {\n\tprintln(\"RUN\", %q, %q, \"init\"%s)\n}\n", p.Path, f.Name, args)
 			}
@@ -155,6 +161,9 @@ func (t *c15Tree) graphLine(id string) map[string]any {
 				continue
 			}
 			us = append(us, []string{f.Name, "var"})
+			if f.Stmt {
+				us = append(us, []string{f.Name, "stmt"})
+			}
 			if f.HasInit {
 				us = append(us, []string{f.Name, "init"})
 			}
@@ -205,7 +214,7 @@ func c15Build(r *rand.Rand, paths []string, edges map[string][]string, fancy boo
 		}
 		perm := r.Perm(len(fileNames))
 		for i := 0; i < nf; i++ {
-			f := c15File{Name: fileNames[perm[i]], HasInit: !fancy || r.Intn(3) > 0, Clause: p.Name}
+			f := c15File{Name: fileNames[perm[i]], HasInit: !fancy || r.Intn(3) > 0, Clause: p.Name, Stmt: fancy && path != "main" && r.Intn(3) == 0}
 			if fancy && r.Intn(4) == 0 {
 				h := c15Headers[6+r.Intn(4)]
 				f.Header = h.text
